@@ -767,14 +767,19 @@ def run_C14(R):
 
 # =============================== C11 / C12 ====================================
 
-def wellformed_graph(g):
-    inst = collections.Counter(t[0] for t in g.triples if t[1] == ':instance')
+def wellformed_graph(g, result=False):
+    """well-formed as C12 states it: every variable has exactly one node and every source is a variable
+    with a node.  For *inputs* the triples are in addition pairwise distinct; a *result* may repeat a
+    triple (dereifying a node whose relation is also written directly): the property does not forbid it
+    and the graph still encodes and decodes to itself, which is checked separately."""
+    inst = collections.Counter(t[0] for t in set(g.triples) if t[1] == ':instance') if result else \
+        collections.Counter(t[0] for t in g.triples if t[1] == ':instance')
     vs = g.variables()
     if any(inst[v] != 1 for v in vs):
         return 'instance count'
     if any(t[0] not in inst for t in g.triples):
         return 'source without node'
-    if len(set(g.triples)) != len(g.triples):
+    if not result and len(set(g.triples)) != len(g.triples):
         return 'duplicate triple'
     return None
 
@@ -877,7 +882,7 @@ def c12_program(args):
         return 'argument modified'
     if x.top != g.top:
         return 'top changed: %r -> %r' % (g.top, x.top)
-    w = wellformed_graph(x)
+    w = wellformed_graph(x, result=True)
     if w:
         return 'ill-formed result (%s)' % w
     if not specs.connected(x.triples, x.top, x.variables()):
